@@ -305,8 +305,20 @@ func genValidFile(r *rand.Rand, big bool, feat map[string]bool) []byte {
 		if ntr > 100 {
 			nev = r.Intn(2)
 		}
-		var rs byte // running status in effect
+		var rs byte                                // running status in effect
+		tempoHeavy := ntr <= 16 && r.Intn(12) == 0 // a long tempo map: 65..160 well-formed tempo events on rising ticks
+		if tempoHeavy {
+			nev = 65 + r.Intn(96)
+			feat["many_tempo_events"] = true
+		}
 		for e := 0; e < nev; e++ {
+			if tempoHeavy && r.Intn(8) != 0 {
+				body = append(body, vlqPadded(r, uint32(r.Intn(200)), feat)...)
+				body = append(body, 0xFF, 0x51, 0x03, byte(1+r.Intn(40)), byte(r.Intn(256)), byte(r.Intn(256)))
+				rs = 0
+				feat["meta"] = true
+				continue
+			}
 			body = append(body, vlqPadded(r, genDelta(r, false), feat)...)
 			switch k := r.Intn(20); {
 			case k < 12:
